@@ -1,9 +1,9 @@
 (* C13 -- proofs about the SAFE_DATA storage model (Mgr/SafeData.v).
 
-   Main invariant [inv]: in every reachable state, a lane without a job holds the reset image in
-   every claimed field, and a lane working for job j holds, in its claimed fields, nothing but the
-   reset image or data of j.  It is preserved by every submit and flush of a family that satisfies
-   [family_ok], for all lane choices. *)
+   Main invariant [inv]: in every reachable state, a lane without a job holds the reset image (or,
+   for k_junk fields, job-independent garbage) in every claimed field, and a lane working for job j
+   holds, in its claimed fields, nothing derived from any other job.  It is preserved by every
+   submit and flush of a family that satisfies [family_ok], for all lane choices. *)
 From Coq Require Import List Bool Arith Lia.
 From IMB Require Import Mgr.SafeData.
 Import ListNotations.
@@ -31,12 +31,6 @@ Proof.
   intros A P l n x H Hn. apply nth_error_In in Hn. rewrite Forall_forall in H. auto.
 Qed.
 
-Lemma set_nth_length : forall {A} (l : list A) n x, length (set_nth l n x) = length l.
-Proof.
-  intros A l; induction l as [|h t IH]; intros n x; simpl; auto.
-  destruct n; simpl; auto.
-Qed.
-
 Lemma nth_error_set_nth_eq : forall {A} (l : list A) n x,
     n < length l -> nth_error (set_nth l n x) n = Some x.
 Proof.
@@ -53,31 +47,26 @@ Qed.
 (* ---------------------------------------------------------------------------------------- *)
 (* per lane                                                                                  *)
 (* ---------------------------------------------------------------------------------------- *)
-Lemma upd_length : forall fam sel v vals, length (upd fam sel v vals) = length vals.
-Proof.
-  induction fam as [|f fam IH]; intros sel v vals; simpl; auto.
-  destruct vals; simpl; auto.
-Qed.
-
 Lemma clean_reset : forall fam, clean fam (map (fun _ => Zero) fam).
 Proof.
   induction fam; simpl; auto.
 Qed.
 
 Lemma clean_nth : forall fam vals i f,
-    clean fam vals -> nth_error fam i = Some f -> claim f = true -> nth_error vals i = Some Zero.
+    clean fam vals -> nth_error fam i = Some f -> claim f = true ->
+    exists v, nth_error vals i = Some v /\ (v = Zero \/ (k_junk f = true /\ v = Junk)).
 Proof.
   induction fam as [|g fam IH]; intros vals i f Hc Hn Hcl.
   - destruct i; discriminate.
   - destruct vals as [|v vals]; simpl in Hc; [contradiction|]. destruct Hc as [H1 H2].
     destruct i; simpl in *.
-    + inversion Hn; subst. rewrite (H1 Hcl). reflexivity.
+    + inversion Hn; subst. exists v. split; auto.
     + eapply IH; eauto.
 Qed.
 
 Lemma owned_nth : forall fam j vals i f v,
     owned fam j vals -> nth_error fam i = Some f -> claim f = true ->
-    nth_error vals i = Some v -> v = Zero \/ v = Data j.
+    nth_error vals i = Some v -> v = Zero \/ v = Junk \/ v = Data j.
 Proof.
   induction fam as [|g fam IH]; intros j vals i f v Ho Hn Hcl Hv.
   - destruct i; discriminate.
@@ -109,6 +98,17 @@ Proof.
   induction fam as [|f fam IH]; intros j vals Hc; destruct vals as [|v vals]; simpl in *; auto.
   destruct Hc as [H1 H2]. split; auto.
   intros Hcl. destruct (w_submit f); auto.
+  destruct (H1 Hcl) as [H|[_ H]]; auto.
+Qed.
+
+(* a kernel pass leaves a clean job-less lane clean *)
+Lemma junk_clean : forall fam vals, clean fam vals -> clean fam (junk fam vals).
+Proof.
+  induction fam as [|f fam IH]; intros vals Hc; destruct vals as [|v vals]; simpl in *; auto.
+  destruct Hc as [H1 H2]. split; auto.
+  intros Hcl. destruct (H1 Hcl) as [H|[Hk H]]; subst.
+  - destruct (k_junk f) eqn:Hk; auto.
+  - rewrite Hk. auto.
 Qed.
 
 (* the SAFE_DATA block of submit restores the reset image in the returned lane *)
@@ -117,20 +117,23 @@ Lemma submit_complete : forall fam j vals,
 Proof.
   induction fam as [|f fam IH]; intros j vals Hok Ho; destruct vals as [|v vals]; simpl in *; auto.
   apply andb_true_iff in Hok. destruct Hok as [Hf Hok]. destruct Ho as [H1 H2]. split.
-  - intros Hcl. rewrite (fspec_ok_submit f Hf Hcl). reflexivity.
+  - intros Hcl. rewrite (fspec_ok_submit f Hf Hcl). auto.
   - eapply IH; eauto.
 Qed.
 
-(* flush: a lane without a job is first tainted by the good lane, then cleared *)
+(* flush: a lane without a job is tainted by the good lane, processed by the kernel, then cleared *)
 Lemma flush_null : forall fam jg vals,
     family_ok fam = true -> clean fam vals ->
-    clean fam (upd fam c_flush_null Zero (upd fam t_flush (Data jg) vals)).
+    clean fam (upd fam c_flush_null Zero (junk fam (upd fam t_flush (Data jg) vals))).
 Proof.
   induction fam as [|f fam IH]; intros jg vals Hok Hc; destruct vals as [|v vals]; simpl in *; auto.
   apply andb_true_iff in Hok. destruct Hok as [Hf Hok]. destruct Hc as [H1 H2]. split.
   - intros Hcl. destruct (fspec_ok_flush f Hf Hcl) as [Hn|[Ht Hr]].
-    + rewrite Hn. reflexivity.
+    + rewrite Hn. auto.
     + rewrite Ht. destruct (c_flush_null f); auto.
+      destruct (H1 Hcl) as [H|[Hk H]]; subst.
+      * destruct (k_junk f) eqn:Hk; auto.
+      * rewrite Hk. auto.
   - apply IH; auto.
 Qed.
 
@@ -142,7 +145,7 @@ Proof.
   induction fam as [|f fam IH]; intros j vals Hok Ho; destruct vals as [|v vals]; simpl in *; auto.
   apply andb_true_iff in Hok. destruct Hok as [Hf Hok]. destruct Ho as [H1 H2]. split.
   - intros Hcl. destruct (fspec_ok_flush f Hf Hcl) as [Hn|[Ht Hr]].
-    + rewrite Hn. reflexivity.
+    + rewrite Hn. auto.
     + rewrite Hr. destruct (c_flush_null f); auto.
   - eapply IH; eauto.
 Qed.
@@ -166,6 +169,13 @@ Proof.
   intros ln. unfold is_free. destruct (l_job ln); eauto. discriminate.
 Qed.
 
+Lemma junk_null_inv : forall fam s, Forall (lane_inv fam) s -> Forall (lane_inv fam) (junk_null fam s).
+Proof.
+  intros fam s H. unfold junk_null. apply forall_map'. apply Forall_forall. intros ln Hin.
+  rewrite Forall_forall in H. specialize (H ln Hin). destruct (is_free ln) eqn:Hf; auto.
+  unfold lane_inv in *. rewrite (is_free_job _ Hf) in H. simpl. apply junk_clean; auto.
+Qed.
+
 Lemma step_inv : forall fam s o s',
     family_ok fam = true -> inv fam s -> step fam s o = Some s' -> inv fam s'.
 Proof.
@@ -179,7 +189,9 @@ Proof.
                     (set_nth s l (mk_lane (Some j) (upd fam w_submit (Data j) (l_fld ln))))).
     { apply forall_set_nth; auto. unfold lane_inv. simpl. apply submit_place; auto. }
     destruct oc as [c|].
-    + destruct (nth_error (set_nth s l (mk_lane (Some j) (upd fam w_submit (Data j) (l_fld ln)))) c)
+    + apply junk_null_inv in Hs1.
+      destruct (nth_error (junk_null fam
+                  (set_nth s l (mk_lane (Some j) (upd fam w_submit (Data j) (l_fld ln))))) c)
         as [lc|] eqn:Hc; [|discriminate].
       destruct (is_free lc) eqn:Hfc; [discriminate|].
       inversion Hstep; subst s'. apply forall_set_nth; auto.
@@ -194,12 +206,13 @@ Proof.
     destruct (l_job lc) as [jc|] eqn:Hjc; [|discriminate].
     inversion Hstep; subst s'. unfold clear_null. apply forall_map'.
     apply forall_set_nth.
-    + unfold taint_null. apply forall_map'. apply Forall_forall. intros ln Hin.
+    + unfold junk_null. apply forall_map'. unfold taint_null. apply forall_map'.
+      apply Forall_forall. intros ln Hin.
       rewrite Forall_forall in Hinv. specialize (Hinv ln Hin). unfold lane_inv in Hinv.
       destruct (is_free ln) eqn:Hf.
-      * rewrite (is_free_job _ Hf) in Hinv. unfold is_free at 1. simpl.
+      * rewrite (is_free_job _ Hf) in Hinv. unfold is_free at 1 2. simpl.
         unfold lane_inv. simpl. apply flush_null; auto.
-      * rewrite Hf. unfold lane_inv. exact Hinv.
+      * rewrite Hf. rewrite Hf. unfold lane_inv. exact Hinv.
     + unfold is_free at 1. simpl. unfold lane_inv. simpl.
       pose proof (forall_nth_error _ _ _ _ Hinv Hc) as Hlc. unfold lane_inv in Hlc.
       rewrite Hjc in Hlc. eapply flush_ret; eauto.
@@ -221,26 +234,62 @@ Proof.
   apply (map_nth_error (fun _ => Zero)) in H. exact H.
 Qed.
 
+Lemma clean_reset_image : forall fam vals i f,
+    clean fam vals -> nth_error fam i = Some f -> claim f = true -> k_junk f = false ->
+    nth_error vals i = nth_error (l_fld (reset_lane fam)) i.
+Proof.
+  intros fam vals i f Hc Hf Hcl Hk. rewrite (reset_image_nth fam i f Hf).
+  destruct (clean_nth _ _ _ _ Hc Hf Hcl) as [v [Hv [H|[H _]]]].
+  - subst. exact Hv.
+  - rewrite Hk in H. discriminate.
+Qed.
+
+Lemma clean_no_data : forall fam vals i f j,
+    clean fam vals -> nth_error fam i = Some f -> claim f = true ->
+    nth_error vals i <> Some (Data j).
+Proof.
+  intros fam vals i f j Hc Hf Hcl Hd.
+  destruct (clean_nth _ _ _ _ Hc Hf Hcl) as [v [Hv [H|[_ H]]]]; subst; rewrite Hv in Hd; discriminate.
+Qed.
+
 (* ---------------------------------------------------------------------------------------- *)
 (* the property theorems                                                                     *)
 (* ---------------------------------------------------------------------------------------- *)
 
 (* For ALL histories of submits and flushes: whenever no job is in flight, every sensitive
-   (claimed) field of every lane equals its reset image. *)
+   (claimed) field of every lane equals its reset image -- fields the kernels turn into
+   job-independent garbage excepted, see the next theorem for those. *)
 Theorem ooo_clean_when_idle_lemma :
   forall (fam : family) (n : nat) (ops : list op) (s : state),
     family_ok fam = true ->
     run fam (reset_state fam n) ops = Some s ->
     idle s ->
     forall ln i f,
-      In ln s -> nth_error fam i = Some f -> claim f = true ->
+      In ln s -> nth_error fam i = Some f -> claim f = true -> k_junk f = false ->
       nth_error (l_fld ln) i = nth_error (l_fld (reset_lane fam)) i.
 Proof.
-  intros fam n ops s Hok Hrun Hidle ln i f Hin Hf Hcl.
+  intros fam n ops s Hok Hrun Hidle ln i f Hin Hf Hcl Hk.
   pose proof (run_inv fam ops _ _ Hok (inv_reset fam n) Hrun) as Hinv.
   unfold inv in Hinv. rewrite Forall_forall in Hinv. specialize (Hinv ln Hin).
   unfold lane_inv in Hinv. rewrite (Hidle ln Hin) in Hinv.
-  rewrite (reset_image_nth fam i f Hf). eapply clean_nth; eauto.
+  eapply clean_reset_image; eauto.
+Qed.
+
+(* ... and no sensitive field at all, k_junk or not, holds anything derived from a job. *)
+Theorem ooo_idle_holds_no_job_data_lemma :
+  forall (fam : family) (n : nat) (ops : list op) (s : state),
+    family_ok fam = true ->
+    run fam (reset_state fam n) ops = Some s ->
+    idle s ->
+    forall ln i f j,
+      In ln s -> nth_error fam i = Some f -> claim f = true ->
+      nth_error (l_fld ln) i <> Some (Data j).
+Proof.
+  intros fam n ops s Hok Hrun Hidle ln i f j Hin Hf Hcl.
+  pose proof (run_inv fam ops _ _ Hok (inv_reset fam n) Hrun) as Hinv.
+  unfold inv in Hinv. rewrite Forall_forall in Hinv. specialize (Hinv ln Hin).
+  unfold lane_inv in Hinv. rewrite (Hidle ln Hin) in Hinv.
+  eapply clean_no_data; eauto.
 Qed.
 
 (* A lane that has no job holds the reset image in every sensitive field, whatever the other
@@ -251,13 +300,15 @@ Theorem ooo_free_lane_clean_lemma :
     run fam (reset_state fam n) ops = Some s ->
     forall ln i f,
       In ln s -> l_job ln = None -> nth_error fam i = Some f -> claim f = true ->
-      nth_error (l_fld ln) i = nth_error (l_fld (reset_lane fam)) i.
+      (k_junk f = false -> nth_error (l_fld ln) i = nth_error (l_fld (reset_lane fam)) i) /\
+      (forall j, nth_error (l_fld ln) i <> Some (Data j)).
 Proof.
   intros fam n ops s Hok Hrun ln i f Hin Hfree Hf Hcl.
   pose proof (run_inv fam ops _ _ Hok (inv_reset fam n) Hrun) as Hinv.
   unfold inv in Hinv. rewrite Forall_forall in Hinv. specialize (Hinv ln Hin).
-  unfold lane_inv in Hinv. rewrite Hfree in Hinv.
-  rewrite (reset_image_nth fam i f Hf). eapply clean_nth; eauto.
+  unfold lane_inv in Hinv. rewrite Hfree in Hinv. split.
+  - intros Hk. eapply clean_reset_image; eauto.
+  - intros j. eapply clean_no_data; eauto.
 Qed.
 
 Inductive completes : op -> nat -> Prop :=
@@ -278,28 +329,57 @@ Theorem ooo_lane_clean_after_completion_lemma :
 Proof.
   intros fam n ops s s' o c Hok Hrun Hstep Hcomp.
   pose proof (run_inv fam ops _ _ Hok (inv_reset fam n) Hrun) as Hinv.
-  pose proof (step_inv fam s o s' Hok Hinv Hstep) as Hinv'.
-  assert (Hfree : exists lc, nth_error s' c = Some lc /\ l_job lc = None).
-  { inversion Hcomp; subst; simpl in Hstep.
-    - destruct (nth_error s l) as [ln|] eqn:Hl; [|discriminate].
-      destruct (is_free ln); [|discriminate].
-      destruct (nth_error (set_nth s l (mk_lane (Some j) (upd fam w_submit (Data j) (l_fld ln)))) c)
-        as [lc|] eqn:Hc; [|discriminate].
-      destruct (is_free lc); [discriminate|]. inversion Hstep; subst s'.
-      eexists. split; [apply nth_error_set_nth_eq; eapply nth_error_lt; eauto|reflexivity].
-    - destruct (nth_error s g) as [lg|] eqn:Hg; [|discriminate].
-      destruct (nth_error s c) as [lc|] eqn:Hc; [|discriminate].
-      destruct (l_job lg) as [jg|]; [|discriminate].
-      destruct (l_job lc) as [jc|]; [|discriminate].
-      inversion Hstep; subst s'. unfold clear_null.
-      eexists. split.
-      + apply map_nth_error. apply nth_error_set_nth_eq. unfold taint_null.
-        rewrite map_length. eapply nth_error_lt; eauto.
-      + unfold is_free. simpl. reflexivity. }
-  destruct Hfree as [lc [Hn Hj]]. exists lc. split; [exact Hn|]. split; [exact Hj|].
-  intros i f Hf Hcl.
-  pose proof (forall_nth_error _ _ _ _ Hinv' Hn) as Hlc. unfold lane_inv in Hlc. rewrite Hj in Hlc.
-  rewrite (reset_image_nth fam i f Hf). eapply clean_nth; eauto.
+  inversion Hcomp; subst; simpl in Hstep.
+  - (* submit: the returned lane is cleared by the SAFE_DATA block, nothing runs afterwards *)
+    destruct (nth_error s l) as [ln|] eqn:Hl; [|discriminate].
+    destruct (is_free ln) eqn:Hfree; [|discriminate].
+    pose proof (forall_nth_error _ _ _ _ Hinv Hl) as Hln.
+    unfold lane_inv in Hln. rewrite (is_free_job _ Hfree) in Hln.
+    assert (Hs1 : Forall (lane_inv fam)
+                    (junk_null fam (set_nth s l (mk_lane (Some j) (upd fam w_submit (Data j) (l_fld ln)))))).
+    { apply junk_null_inv. apply forall_set_nth; auto. unfold lane_inv. simpl.
+      apply submit_place; auto. }
+    destruct (nth_error (junk_null fam
+                (set_nth s l (mk_lane (Some j) (upd fam w_submit (Data j) (l_fld ln))))) c)
+      as [lc|] eqn:Hc; [|discriminate].
+    destruct (is_free lc) eqn:Hfc; [discriminate|]. inversion Hstep; subst s'.
+    eexists. split; [apply nth_error_set_nth_eq; eapply nth_error_lt; eauto|].
+    split; [reflexivity|]. intros i f Hf Hcl.
+    rewrite (reset_image_nth fam i f Hf). simpl.
+    pose proof (forall_nth_error _ _ _ _ Hs1 Hc) as Hlc.
+    destruct (is_busy_job _ Hfc) as [j' Hj']. unfold lane_inv in Hlc. rewrite Hj' in Hlc.
+    clear - Hok Hlc Hf Hcl. revert i Hf. generalize (l_fld lc) Hlc. clear Hlc.
+    induction fam as [|g fam IH]; intros vals Ho i Hf.
+    + destruct i; discriminate.
+    + destruct vals as [|v vals]; simpl in Ho; [contradiction|]. destruct Ho as [H1 H2].
+      simpl in Hok. apply andb_true_iff in Hok. destruct Hok as [Hg Hok].
+      destruct i; simpl in *.
+      * inversion Hf; subst. rewrite (fspec_ok_submit f Hg Hcl). reflexivity.
+      * apply IH; auto.
+  - (* flush: the returned lane is cleared twice over *)
+    destruct (nth_error s g) as [lg|] eqn:Hg; [|discriminate].
+    destruct (nth_error s c) as [lc|] eqn:Hc; [|discriminate].
+    destruct (l_job lg) as [jg|]; [|discriminate].
+    destruct (l_job lc) as [jc|] eqn:Hjc; [|discriminate].
+    inversion Hstep; subst s'. unfold clear_null.
+    eexists. split.
+    + apply map_nth_error. apply nth_error_set_nth_eq. unfold junk_null, taint_null.
+      rewrite !map_length. eapply nth_error_lt; eauto.
+    + unfold is_free. simpl. split; [reflexivity|]. intros i f Hf Hcl.
+      rewrite (map_nth_error (fun _ => Zero) _ _ Hf).
+      pose proof (forall_nth_error _ _ _ _ Hinv Hc) as Hlc. unfold lane_inv in Hlc.
+      rewrite Hjc in Hlc.
+      clear - Hok Hlc Hf Hcl. revert i Hf. generalize (l_fld lc) Hlc. clear Hlc.
+      induction fam as [|g' fam IH]; intros vals Ho i Hf.
+      * destruct i; discriminate.
+      * destruct vals as [|v vals]; simpl in Ho; [contradiction|]. destruct Ho as [H1 H2].
+        simpl in Hok. apply andb_true_iff in Hok. destruct Hok as [Hg' Hok].
+        destruct i; simpl in *.
+        -- inversion Hf; subst.
+           destruct (fspec_ok_flush f Hg' Hcl) as [Hn|[Ht Hr]].
+           ++ rewrite Hn. reflexivity.
+           ++ rewrite Hr. destruct (c_flush_null f); reflexivity.
+        -- apply IH; auto.
 Qed.
 
 (* Nothing derived from a job that is no longer in flight survives in a sensitive field: data of
@@ -316,18 +396,7 @@ Proof.
   pose proof (run_inv fam ops _ _ Hok (inv_reset fam n) Hrun) as Hinv.
   unfold inv in Hinv. rewrite Forall_forall in Hinv. specialize (Hinv ln Hin).
   unfold lane_inv in Hinv. destruct (l_job ln) as [j'|].
-  - destruct (owned_nth _ _ _ _ _ _ Hinv Hf Hcl Hv) as [H|H]; [discriminate|].
+  - destruct (owned_nth _ _ _ _ _ _ Hinv Hf Hcl Hv) as [H|[H|H]]; try discriminate.
     inversion H; subst; reflexivity.
-  - pose proof (clean_nth _ _ _ _ Hinv Hf Hcl) as H. rewrite H in Hv. discriminate.
-Qed.
-
-(* The obligation is also necessary: a claimed field that one of the completion paths does not
-   clear is left dirty by a two-step history (used by the examples, and it is what the mutation
-   trials exhibit on the real library). *)
-Lemma cleanb_clean : forall fam vals, cleanb fam vals = true -> clean fam vals.
-Proof.
-  induction fam as [|f fam IH]; intros vals H; destruct vals as [|v vals]; simpl in *; auto;
-    try discriminate.
-  apply andb_true_iff in H. destruct H as [H1 H2]. split; auto.
-  intros Hcl. rewrite Hcl in H1. simpl in H1. destruct v; auto. discriminate.
+  - exfalso. eapply clean_no_data; eauto.
 Qed.
